@@ -23,7 +23,7 @@ pub fn def() -> CheckDef {
 fn meta(_ctx: &Ctx) -> Meta {
     Meta {
         level: "exploration",
-        rule: "(a) signature headers synthesised by the harness encoder around real header + payload bytes: the product of OpenPGP tag {absent, string array with 0..3 base64 items, malformed / empty base64, wrong data types} x RSA / DSA / legacy-PGP tags {absent, binary, wrong type} x digest tags {none, correct, wrong, a strict prefix of the true value, empty} x verifier scripts {all accept, reject at call 1..4, all reject}; a recording implementation of the public Verifying trait logs every call (hash + length of the data, signature bytes); success is judged against the log: >= 1 call, no rejected call, every call handed exactly header (or header+payload for the legacy tag) bytes with a signature taken from the package, all recorded digests matching. (b) packages built and signed by the library with RSA-4096, protected RSA-3072, Ed25519 and ECDSA-P256 keys: every single-bit flip of the main header and of (a bounded part of) the payload plus seeded multi-byte edits; for gzip / zstd / xz / bzip2 payloads in addition every bit of the first 24 and last 16 bytes of the compressed stream (member / frame / stream headers and trailers) and bytes appended after the payload (zeros, text, an empty second member); structurally consistent extensions of the signed main header (one more index entry with its data appended behind the signed content); run in worker processes with the real pgp verifier; a mutant that parses to a different value must not verify. distinct_nontrivial = distinct (shape, script) executions that returned Ok or had calls + distinct mutants that parsed to a changed value".into(),
+        rule: "(a) signature headers synthesised by the harness encoder around real header + payload bytes: the product of OpenPGP tag {absent, string array with 0..3 base64 items, malformed / empty base64, wrong data types} x RSA / DSA / legacy-PGP tags {absent, binary, wrong type} x digest tags {none, correct, wrong, a strict prefix of the true value, empty} x verifier scripts {all accept, reject at call 1..4, all reject}; a recording implementation of the public Verifying trait logs every call (hash + length of the data, signature bytes); success is judged against the log: >= 1 call, no rejected call, every call handed exactly header (or header+payload for the legacy tag) bytes with a signature taken from the package, all recorded digests matching. (b) packages built and signed by the library with RSA-4096, protected RSA-3072, Ed25519 and ECDSA-P256 keys: every single-bit flip of the main header and of (a bounded part of) the payload plus seeded multi-byte edits; for gzip / zstd / xz / bzip2 payloads in addition every bit of the first 24 and last 16 bytes of the compressed stream (member / frame / stream headers and trailers) and bytes appended after the payload (zeros, text, an empty second member); structurally consistent extensions of the signed main header (one more index entry with its data appended behind the signed content); run in worker processes with the real pgp verifier; a mutant that parses to a different value must not verify. distinct_nontrivial = distinct (shape, script) executions that returned Ok or had calls + distinct mutants that parsed to a changed value (c) histories on one object: every signed base of (b) that has just verified is changed in memory through its public content field (first / last bit, middle byte, byte appended, one byte cut, emptied) on the same object, on a clone of the verified object and on a clone verified first, and asked again: success of verify_signature or verify_digests is a violation (counter c.object_histories_judged)".into(),
         assumptions: vec!["pgp crate verifies correctly; signature blobs in part (a) are opaque to the recording verifier".into()],
         floor_distinct: 500,
     }
